@@ -203,6 +203,11 @@ class Seam:
                     f["done"] = True
                     self.fired.append([kind, seq, event])
                     self._flush_and_die()
+                if kind == "interrupt_at_event" and seq == f["k"]:
+                    # Ctrl-C: unlike a crash, the exception travels through every except / finally / context manager on the stack
+                    f["done"] = True
+                    self.fired.append([kind, seq, event])
+                    raise KeyboardInterrupt()
                 if kind == "eio_on_copy" and event == "shutil.copyfile":
                     f["n"] = f.get("n", 0) + 1
                     if f["n"] == f["k"]:
